@@ -133,6 +133,7 @@ func (m *collection) Close() error {
 	m.invalidateLatestSnapshotLOCKED()
 
 	close(m.stopCh)
+	verifTrace("coll.close.begin", m)
 
 	m.stackDirtyTopCond.Broadcast()  // Awake all ExecuteBatch()'ers.
 	m.stackDirtyBaseCond.Broadcast() // Awake persister.
@@ -140,6 +141,7 @@ func (m *collection) Close() error {
 	if !m.options.ReadOnly {
 		m.m.Unlock()
 
+		verifGate("close.beforeWait", m)
 		<-m.doneMergerCh
 		atomic.AddUint64(&m.stats.TotCloseMergerDone, 1)
 
@@ -168,6 +170,7 @@ func (m *collection) Close() error {
 	stackCleanPrev := m.stackClean
 	m.stackClean = nil
 
+	verifTrace("coll.close.end", m)
 	m.m.Unlock()
 
 	stackDirtyTopPrev.Close()
@@ -218,6 +221,7 @@ func (m *collection) Snapshot() (rv Snapshot, err error) {
 			m.latestSnapshot = reuseSnapshot(rv)
 		}
 	}
+	verifTrace("coll.snapshot", m, rv)
 	m.m.Unlock()
 
 	return
@@ -335,6 +339,7 @@ func (m *collection) ExecuteBatch(bIn Batch,
 	// Notify handlers that we are about to execute a batch.
 	m.fireEvent(EventKindBatchExecuteStart, 0)
 
+	verifGate("exec.beforeLock", m)
 	m.m.Lock()
 
 	for m.stackDirtyTop != nil &&
@@ -368,6 +373,7 @@ func (m *collection) ExecuteBatch(bIn Batch,
 	waitDirtyIncomingCh := m.waitDirtyIncomingCh
 	m.waitDirtyIncomingCh = nil
 
+	verifTrace("exec.push", m)
 	m.m.Unlock()
 
 	prevStackDirtyTop.Close()
@@ -640,6 +646,7 @@ func (m *collection) get(key []byte, readOptions ReadOptions) ([]byte, error) {
 	stackDirtyMid := m.stackDirtyMid
 	stackDirtyTop := m.stackDirtyTop
 
+	verifTrace("coll.get", m)
 	m.m.Unlock()
 
 	var val []byte
